@@ -1,7 +1,7 @@
 """TRANSLATOR: the SELECT side of sqlobject/inheritance/__init__.py and iteration.py -> PyInhSel blocks.
 
-`InheritableSelectResults.__init__`, `InheritableSQLObject.selectBy / _findAlternateID`,
-`InheritableIteration.next / fetchChildren` are translated statement by statement into the deep embedding of
+`InheritableSelectResults.__init__` and `InheritableSQLObject.selectBy` (the `ENABLED` entries of `TARGETS`; the other
+entries are not translated yet) are translated statement by statement into the deep embedding of
 `lean/SqlObjVerif/Model/PyInhSel.lean`.  Anything outside the fragment raises ExtractError.  Conventions (those of
 pyinherit.py, extended):
   * the first parameter (`self` / `cls`) is `.self`; the other parameters (a `**kw` parameter counts as one, a dict
@@ -56,6 +56,29 @@ def _attr_chain(n):
 
 def _is_none(n):
     return isinstance(n, ast.Constant) and n.value is None
+
+
+def _upd_comp(n):
+    """`X.update(dict([(K, V) for (A, B) in IT if C]))` -> (X, K, V, A, B, IT, C) or None"""
+    if not (isinstance(n, ast.Call) and isinstance(n.func, ast.Attribute) and n.func.attr == 'update'
+            and isinstance(n.func.value, ast.Name) and len(n.args) == 1 and not n.keywords):
+        return None
+    d = n.args[0]
+    if not (isinstance(d, ast.Call) and isinstance(d.func, ast.Name) and d.func.id == 'dict' and len(d.args) == 1
+            and not d.keywords and isinstance(d.args[0], ast.ListComp)):
+        return None
+    lc = d.args[0]
+    if len(lc.generators) != 1:
+        return None
+    g = lc.generators[0]
+    if g.is_async or len(g.ifs) != 1 or not (isinstance(g.target, ast.Tuple) and len(g.target.elts) == 2
+                                             and all(isinstance(t, ast.Name) for t in g.target.elts)):
+        return None
+    if not (isinstance(lc.elt, ast.Tuple) and len(lc.elt.elts) == 2):
+        return None
+    if g.target.elts[0].id == g.target.elts[1].id:
+        return None
+    return (n.func.value.id, lc.elt.elts[0], lc.elt.elts[1], g.target.elts[0].id, g.target.elts[1].id, g.iter, g.ifs[0])
 
 
 class Func(object):
@@ -150,6 +173,14 @@ class Func(object):
 
             def visit_Call(s, n):
                 f = n.func
+                uc = _upd_comp(n)
+                if uc:
+                    # the comprehension's own variables get slots of their own kind: they never leak (the
+                    # statement evaluates the comprehension in a scratch environment)
+                    mutated[uc[0]] = n.lineno
+                    bind(uc[3], 'other')
+                    bind(uc[4], 'other')
+                    return
                 if isinstance(f, ast.Attribute) and isinstance(f.value, ast.Name) \
                         and f.attr in ('add', 'update', 'append', 'pop', 'clear', 'remove', 'insert', 'setdefault',
                                        'sort', 'reverse', 'popitem', 'discard', 'extend'):
@@ -219,6 +250,11 @@ class Func(object):
                         rs.add(k)
                 if rs == {'dict'} or rs == {'list'}:
                     self.kinds[name] = rs.pop()
+                    changed = True
+                elif rs in ({'dict', 'other'}, {'list', 'other'}) and ks[0] in ('dict', 'list') and name in mutated:
+                    # `x = []` … `x.append(…)` … `x = reduce(…)`: the container statements are checked at run time
+                    # (they are `stuck` on anything but a container value)
+                    self.kinds[name] = ks[0]
                     changed = True
         for (ln, tgt, src) in aliases:
             if src == '<chained>':
@@ -597,6 +633,17 @@ class Func(object):
                     and isinstance(t.slice.value, int) and t.slice.value >= 0:
                 return ['(.attrDelIdx .self %s %d)' % (_strs(p), t.slice.value)]
             self.fail('del of an item of something that is not known to be a dict / list', n)
+        if isinstance(n, ast.Expr) and isinstance(n.value, ast.Call) and _upd_comp(n.value):
+            x, k, v, a, b, it, cnd = _upd_comp(n.value)
+            if self.kinds.get(x) != 'dict':
+                self.fail('update of something that is not known to be a dict', n)
+            if isinstance(it, ast.Call) and isinstance(it.func, ast.Attribute) and it.func.attr == 'items' \
+                    and not it.args and not it.keywords:
+                ite = '(.items %s)' % self.expr(it.func.value)
+            else:
+                ite = self.expr(it)
+            return ['(.updatePairs %d %d %d %s %s %s %s)' % (self.var(x), self.var(a), self.var(b), ite,
+                                                           self.cond(cnd), self.expr(k), self.expr(v))]
         if isinstance(n, ast.Expr) and isinstance(n.value, ast.Call):
             c, f = n.value, n.value.func
             if isinstance(f, ast.Attribute) and isinstance(f.value, ast.Name) and f.value.id in self.vars \
@@ -679,7 +726,7 @@ class Func(object):
         return out
 
 
-ENABLED = ['selInit']
+ENABLED = ['selInit', 'selectBy']
 
 
 def translate(repo):
